@@ -132,6 +132,160 @@ func spice(r *rand.Rand, g *ast.Grammar) (planted int) {
 	return planted
 }
 
+// slot is a place in a grammar that holds an expression.
+type slot struct {
+	rule int
+	get  func() ast.Expression
+	set  func(ast.Expression)
+}
+
+// slots lists every expression position of g, parents first.
+func slots(g *ast.Grammar) []slot {
+	var out []slot
+	var walk func(ri int, get func() ast.Expression, set func(ast.Expression))
+	walk = func(ri int, get func() ast.Expression, set func(ast.Expression)) {
+		out = append(out, slot{ri, get, set})
+		switch e := get().(type) {
+		case *ast.ChoiceExpr:
+			for i := range e.Alternatives {
+				i := i
+				walk(ri, func() ast.Expression { return e.Alternatives[i] }, func(x ast.Expression) { e.Alternatives[i] = x })
+			}
+		case *ast.SeqExpr:
+			for i := range e.Exprs {
+				i := i
+				walk(ri, func() ast.Expression { return e.Exprs[i] }, func(x ast.Expression) { e.Exprs[i] = x })
+			}
+		case *ast.RecoveryExpr:
+			walk(ri, func() ast.Expression { return e.Expr }, func(x ast.Expression) { e.Expr = x })
+			walk(ri, func() ast.Expression { return e.RecoverExpr }, func(x ast.Expression) { e.RecoverExpr = x })
+		case *ast.ActionExpr:
+			walk(ri, func() ast.Expression { return e.Expr }, func(x ast.Expression) { e.Expr = x })
+		case *ast.LabeledExpr:
+			walk(ri, func() ast.Expression { return e.Expr }, func(x ast.Expression) { e.Expr = x })
+		case *ast.AndExpr:
+			walk(ri, func() ast.Expression { return e.Expr }, func(x ast.Expression) { e.Expr = x })
+		case *ast.NotExpr:
+			walk(ri, func() ast.Expression { return e.Expr }, func(x ast.Expression) { e.Expr = x })
+		case *ast.ZeroOrOneExpr:
+			walk(ri, func() ast.Expression { return e.Expr }, func(x ast.Expression) { e.Expr = x })
+		case *ast.ZeroOrMoreExpr:
+			walk(ri, func() ast.Expression { return e.Expr }, func(x ast.Expression) { e.Expr = x })
+		case *ast.OneOrMoreExpr:
+			walk(ri, func() ast.Expression { return e.Expr }, func(x ast.Expression) { e.Expr = x })
+		}
+	}
+	for ri, r := range g.Rules {
+		r := r
+		walk(ri, func() ast.Expression { return r.Expr }, func(x ast.Expression) { r.Expr = x })
+	}
+	return out
+}
+
+// consumingTerminal: a terminal that cannot match the empty string.
+func consumingTerminal(e ast.Expression) bool {
+	switch e := e.(type) {
+	case *ast.LitMatcher:
+		return e.Val != ""
+	case *ast.CharClassMatcher, *ast.AnyMatcher:
+		return true
+	}
+	return false
+}
+
+
+// shareLeaves adds one or two leaf rules whose whole body is a class or a one-rune literal and puts references
+// to them into choices next to other one-rune terminals, each site with different neighbours: under
+// -optimize-grammar the leaf is inlined at every site and merged with that site's neighbours, so one source class
+// (one source position) becomes several different classes. Without -optimize-grammar it is an ordinary grammar.
+func shareLeaves(r *rand.Rand, g *ast.Grammar) {
+	used := map[string]bool{}
+	for _, rl := range g.Rules {
+		used[rl.Name.Val] = true
+	}
+	const pool = "abcxyz019_+-*ABZ"
+	one := func() rune { return rune(pool[r.Intn(len(pool))]) }
+	class := func(n int, fold bool) *ast.CharClassMatcher {
+		var items []pvpeg.ClassItem
+		for i := 0; i < n; i++ {
+			if r.Intn(4) == 0 {
+				lo, hi := one(), one()
+				if lo > hi {
+					lo, hi = hi, lo
+				}
+				if lo == '-' || hi == '-' || lo == '+' || lo == '*' || hi == '+' || hi == '*' {
+					lo, hi = 'a', 'f'
+				}
+				items = append(items, pvpeg.ClassItem{Lo: lo, Hi: hi, IsRange: true})
+			} else {
+				c := one()
+				if c == '-' {
+					c = '_'
+				}
+				items = append(items, pvpeg.ClassItem{Lo: c, Hi: c})
+			}
+		}
+		return pvpeg.BuildClass(r, items, false, fold, pvpeg.Avoid{ClassFoldRanges: true})
+	}
+	lit1 := func(fold bool) *ast.LitMatcher {
+		e := ast.NewLitMatcher(ast.Pos{}, string(one()))
+		e.IgnoreCase = fold
+		return e
+	}
+	var leaves []string
+	var folds []bool
+	var rules []*ast.Rule
+	for _, nm := range []string{"LeafA", "LeafB"} {
+		if used[nm] || (len(leaves) == 1 && r.Intn(2) == 0) {
+			continue
+		}
+		fold := r.Intn(5) == 0
+		rule := ast.NewRule(ast.Pos{}, ast.NewIdentifier(ast.Pos{}, nm))
+		if r.Intn(4) == 0 {
+			rule.Expr = lit1(fold)
+		} else {
+			rule.Expr = class(1+r.Intn(7), fold)
+		}
+		leaves, folds, rules = append(leaves, nm), append(folds, fold), append(rules, rule)
+	}
+	if len(leaves) == 0 {
+		return
+	}
+	var terms []slot
+	for _, sl := range slots(g) {
+		if consumingTerminal(sl.get()) {
+			terms = append(terms, sl)
+		}
+	}
+	r.Shuffle(len(terms), func(i, j int) { terms[i], terms[j] = terms[j], terms[i] })
+	n := 2 + r.Intn(3)
+	if n > len(terms) {
+		n = len(terms)
+	}
+	for i := 0; i < n; i++ {
+		k := r.Intn(len(leaves))
+		ref := ast.NewRuleRefExpr(ast.Pos{})
+		ref.Name = ast.NewIdentifier(ast.Pos{}, leaves[k])
+		ch := ast.NewChoiceExpr(ast.Pos{})
+		ch.Alternatives = []ast.Expression{ref}
+		for m := 1 + r.Intn(2); m > 0; m-- {
+			var x ast.Expression
+			if r.Intn(2) == 0 {
+				x = lit1(folds[k])
+			} else {
+				x = class(1+r.Intn(3), folds[k])
+			}
+			if r.Intn(2) == 0 {
+				ch.Alternatives = append(ch.Alternatives, x)
+			} else {
+				ch.Alternatives = append([]ast.Expression{x}, ch.Alternatives...)
+			}
+		}
+		terms[i].set(ch)
+	}
+	g.Rules = append(g.Rules, rules...)
+}
+
 // genGrammar draws one code-free well-formed grammar.
 func genGrammar(r *rand.Rand) (g *ast.Grammar, retries, planted int) {
 	cfg := pvpeg.Cfg{WellFormed: true, NoState: true, NoCodePreds: true, MaxRules: 5, MaxDepth: 4,
@@ -145,6 +299,9 @@ func genGrammar(r *rand.Rand) (g *ast.Grammar, retries, planted int) {
 		// clause, without which the emitted file is not a Go file
 		g.Init = ast.NewCodeBlock(ast.Pos{}, "{\npackage main\n}")
 		planted = spice(r, g)
+		if r.Intn(2) == 0 {
+			shareLeaves(r, g)
+		}
 		if pvpeg.CheckWF(g) == nil && !hasCode(g) {
 			return g, retries, planted
 		}
